@@ -1,0 +1,14 @@
+//go:build verif
+
+package slug
+
+// Contracts for the govc verifier (see /verif/DESIGN.md). This file contains
+// comments only; it is compiled only with the "verif" build tag.
+
+//@ func (*Packer).validSymlink -> (ok, err)
+//@   replay validSymlink: root=root, path=path, target=target, nallow=len(p.allowSymlinkTargets)
+//@   requires pre.p: p != nil
+//@   ensures C04.lexical.segment: ok && len(p.allowSymlinkTargets) == 0 ==>
+//@       segUnder(ite(isAbs(target), Clean(target), Join(Dir(ite(isAbs(path), path, Join(Abs(root), path))), target)), Abs(root))
+//@   ensures C04,C12.illegal: !ok ==> err != nil
+//@   guide g: isPlainAbs(root) && isPlainRel(path) && (isDotDotRel(target) || isPlainAbs(target))
